@@ -241,7 +241,12 @@ impl ToPrimitive for BigDecimalRef<'_> {
                 }
             }
             None => {
-                // exponenent too big for i32: return appropriate infinity
+                // exponenent too big for i32
+                if scale > 0 {
+                    // magnitude is far below the smallest subnormal: underflow to (signed) zero
+                    return Some(copy_sign_to_float(0.0));
+                }
+                // otherwise return appropriate infinity
                 let result = if self.sign != Sign::Minus {
                     f64::INFINITY
                 } else {
